@@ -124,4 +124,332 @@ Section PQProofs.
         * exists b'. split; [exact Hs|]. split; [lia|]. split; [auto|]. split; [auto|].
           etransitivity; [exact E'|]. etransitivity; [exact E4|]. symmetry. exact E2.
   Qed.
+
+  (** ** push *)
+  Lemma push_spec : forall m (s : pq) v p, pq_inv m s -> snd s < m ->
+    exists s', pq_push m s v p = Ok s' /\ pq_inv m s' /\ snd s' = snd s + 1 /\
+               Permutation (contents s') ((p, v) :: contents s).
+  Proof.
+    intros m [b n] v p (Hl & Hn & Fl & Ho) Hlt. simpl in Hlt. unfold pq_push. unfold ModelHeap.entry in *.
+    destruct (Z.geb_spec n m); try lia.
+    assert (Gn : bget b n = None) by (apply (proj2 (Fl n ltac:(lia))); lia).
+    rewrite (put_ok b n (p, v)); [|lia|auto]. cbn [bind].
+    set (b1 := upd b n (Some (p, v))).
+    assert (B1 : forall j, bget b1 j = if j =? n then Some (p, v) else bget b j) by (intros; unfold b1; bg).
+    assert (P1 : forall j, j <> n -> prio_at b1 j = prio_at b j).
+    { intros j Hj. unfold prio_at. rewrite B1. destruct (Z.eqb_spec j n); [lia|auto]. }
+    destruct (sift_up_spec (Z.to_nat n) b1 n (n + 1)) as (b' & Hs & L' & F' & H' & E').
+    - lia.
+    - lia.
+    - unfold b1. rewrite len_upd. lia.
+    - intros j Hj. rewrite B1. destruct (Z.eqb_spec j n); [split; [discriminate|lia]|].
+      split; intros; apply Fl; auto; lia.
+    - intros j Hj Nj. assert (0 <= (j - 1) / 2 < j) by dlia. rewrite !P1 by lia. apply Ho. lia.
+    - intros _ j Hj Ej. exfalso. dlia.
+    - rewrite Hs. cbn [bind]. eexists; split; [reflexivity|]. split.
+      + unfold pq_inv. split; [unfold b1 in L'; rewrite len_upd in L'; lia|]. split; [lia|]. auto.
+      + split; [reflexivity|]. unfold contents; simpl fst. etransitivity; [exact E'|].
+        unfold b1. apply entries_put; [lia|auto].
+  Qed.
+
+  Lemma push_full : forall m (s : pq) v p, snd s >= m -> pq_push m s v p = Panic msg_pq_push.
+  Proof. intros m [b n] v p H. simpl in H. unfold pq_push. destruct (Z.geb_spec n m); auto; lia. Qed.
+
+  (** ** sift-down (with a hole at i and the displaced entry of priority dp held outside) *)
+  Definition vprio (b : cells) (i dp j : Z) : Z := if j =? i then dp else prio_at b j.
+  Definition holed (n i : Z) (b : cells) : Prop :=
+    forall j, 0 <= j -> (j < n -> j <> i -> bget b j <> None) /\ (n <= j \/ j = i -> bget b j = None).
+
+  Lemma sift_down_spec : forall fuel (b : cells) n dp i,
+    (Z.to_nat (n - i) <= fuel)%nat -> 0 <= i < n -> n <= len b -> holed n i b ->
+    (forall j, 0 < j < n -> (j - 1) / 2 <> i -> vprio b i dp ((j - 1) / 2) <= vprio b i dp j) ->
+    (0 < i -> forall j, 0 < j < n -> (j - 1) / 2 = i -> vprio b i dp ((i - 1) / 2) <= vprio b i dp j) ->
+    exists b' i', sift_down fuel b n dp i = Ok (b', i') /\ len b' = len b /\ 0 <= i' < n /\
+      holed n i' b' /\
+      (forall j, 0 < j < n -> vprio b' i' dp ((j - 1) / 2) <= vprio b' i' dp j) /\
+      Permutation (entries b') (entries b).
+  Proof.
+    induction fuel as [|fuel IH]; intros b n dp i Hf Hi Hn Hh Ho Hg; [lia|].
+    cbn [sift_down]. unfold ModelHeap.entry in *.
+    set (l := 2 * i + 1) in *.
+    destruct (Z.geb_spec l n) as [Hleaf|Hl].
+    { exists b, i. split; [reflexivity|]. split; [auto|]. split; [auto|]. split; [auto|]. split; [|auto].
+      intros j Hj. apply Ho; auto. unfold l in Hleaf. dlia. }
+    set (r := l + 1) in *.
+    match goal with |- context [bind (if ?c then ?A else ?B) _] => set (CH := if c then A else B) end.
+    assert (HC : exists bc c cp cv, CH = Ok (bc, c, (cp, cv)) /\ (c = l \/ c = r) /\ c < n /\
+              bget b c = Some (cp, cv) /\ len bc = len b /\
+              (forall j, bget bc j = if j =? c then None else bget b j) /\
+              Permutation (entries b) ((cp, cv) :: entries bc) /\
+              (forall j, 0 < j < n -> (j - 1) / 2 = i -> cp <= prio_at b j)).
+    { unfold CH. destruct (bget b l) as [[lp lv]|] eqn:Gl.
+      2:{ exfalso. apply (proj1 (Hh l ltac:(unfold l; lia))); auto; unfold l; lia. }
+      assert (Pl : prio_at b l = lp) by (unfold prio_at; now rewrite Gl).
+      destruct (Z.ltb_spec r n) as [Hr|Hr].
+      - destruct (bget b r) as [[rp rv]|] eqn:Gr.
+        2:{ exfalso. apply (proj1 (Hh r ltac:(unfold r, l; lia))); auto; unfold r, l; lia. }
+        assert (Pr : prio_at b r = rp) by (unfold prio_at; now rewrite Gr).
+        rewrite (take_some_ok b l (lp, lv)); [|unfold l; lia|auto]. cbn [bind].
+        rewrite (take_some_ok (upd b l None) r (rp, rv)); [|rewrite ?len_upd; unfold r, l; lia|unfold r; bg].
+        cbn [bind].
+        assert (E2 : Permutation (entries b) ((lp, lv) :: (rp, rv) :: entries (upd (upd b l None) r None))).
+        { etransitivity; [apply (entries_take b l (lp, lv)); [unfold l; lia|auto]|]. constructor.
+          apply entries_take; [rewrite ?len_upd; unfold r, l; lia|unfold r; bg]. }
+        destruct (Z.ltb_spec rp lp) as [Hlt|Hge].
+        + rewrite (put_ok _ l (lp, lv)); [|rewrite ?len_upd; unfold l; lia|unfold r; bg]. cbn [bind].
+          exists (upd (upd (upd b l None) r None) l (Some (lp, lv))), r, rp, rv.
+          split; [reflexivity|]. split; [auto|]. split; [auto|]. split; [auto|].
+          split; [now rewrite !len_upd|]. split.
+          { intros j. unfold r. bg. subst. auto. }
+          split.
+          { etransitivity; [exact E2|]. etransitivity; [apply perm_swap|]. constructor. symmetry.
+            apply entries_put; [rewrite ?len_upd; unfold l; lia|unfold r; bg]. }
+          { intros j Hj Ej. assert (j = l \/ j = r) as [->| ->] by (unfold r, l; dlia); lia. }
+        + rewrite (put_ok _ r (rp, rv)); [|rewrite ?len_upd; unfold r, l; lia|unfold r; bg]. cbn [bind].
+          exists (upd (upd (upd b l None) r None) r (Some (rp, rv))), l, lp, lv.
+          split; [reflexivity|]. split; [auto|]. split; [lia|]. split; [auto|].
+          split; [now rewrite !len_upd|]. split.
+          { intros j. unfold r. bg. subst. auto. }
+          split.
+          { etransitivity; [exact E2|]. constructor. symmetry.
+            apply entries_put; [rewrite ?len_upd; unfold r, l; lia|unfold r; bg]. }
+          { intros j Hj Ej. assert (j = l \/ j = r) as [->| ->] by (unfold r, l; dlia); lia. }
+      - rewrite (take_some_ok b l (lp, lv)); [|unfold l; lia|auto]. cbn [bind].
+        exists (upd b l None), l, lp, lv.
+        split; [reflexivity|]. split; [auto|]. split; [lia|]. split; [auto|].
+        split; [now rewrite !len_upd|]. split.
+        { intros j. bg. }
+        split.
+        { apply entries_take; [unfold l; lia|auto]. }
+        { intros j Hj Ej. assert (j = l) as -> by (unfold r, l in *; dlia). lia. } }
+    destruct HC as (bc & c & cp & cv & -> & Hc & Hcn & Gc & Lc & Bc & Ec & Hmin). cbn [bind].
+    assert (Hci : i < c /\ (c - 1) / 2 = i) by (unfold r, l in *; dlia). destruct Hci as [Hci Hcp].
+    assert (Pc : prio_at b c = cp) by (unfold prio_at; now rewrite Gc).
+    assert (Gi : bget b i = None) by (apply (proj2 (Hh i ltac:(lia))); auto).
+    destruct (Z.leb_spec dp cp) as [Hle|Hgt].
+    - (* the displaced entry fits here: put the child back, break *)
+      rewrite (put_ok bc c (cp, cv)); [|lia|rewrite Bc; bg]. cbn [bind].
+      set (b2 := upd bc c (Some (cp, cv))).
+      assert (Same : forall j, bget b2 j = bget b j).
+      { intros j. unfold b2. rewrite bget_upd by lia. rewrite Bc. destruct (Z.eqb_spec j c); [subst; auto|auto]. }
+      assert (SameV : forall j, vprio b2 i dp j = vprio b i dp j).
+      { intros j. unfold vprio, prio_at. now rewrite Same. }
+      exists b2, i. split; [reflexivity|]. split; [unfold b2; rewrite len_upd; lia|]. split; [auto|]. split.
+      { intros j Hj. rewrite Same. apply Hh; auto. }
+      split.
+      { intros j Hj. rewrite !SameV. destruct (Z.eq_dec ((j - 1) / 2) i) as [Ej|Nj]; [|apply Ho; auto].
+        rewrite Ej. pose proof (Hmin j Hj Ej). unfold vprio. destruct (Z.eqb_spec i i); try lia.
+        destruct (Z.eqb_spec j i); [dlia|lia]. }
+      { symmetry. etransitivity; [exact Ec|]. symmetry. unfold b2. apply entries_put; [lia|rewrite Bc; bg]. }
+    - (* move the child up into the hole, continue from the child's cell *)
+      rewrite (put_ok bc i (cp, cv)); [|lia|rewrite Bc; bg]. cbn [bind].
+      set (b3 := upd bc i (Some (cp, cv))).
+      assert (B3 : forall j, bget b3 j = if j =? i then Some (cp, cv) else if j =? c then None else bget b j).
+      { intros j. unfold b3. rewrite bget_upd by lia. now rewrite Bc. }
+      assert (V3 : forall j, vprio b3 c dp j = if j =? c then dp else if j =? i then cp else prio_at b j).
+      { intros j. unfold vprio, prio_at. rewrite B3. destruct (Z.eqb_spec j c); auto. destruct (Z.eqb_spec j i); auto. }
+      assert (V0 : forall j, j <> i -> vprio b i dp j = prio_at b j).
+      { intros j Hj. unfold vprio. destruct (Z.eqb_spec j i); [lia|auto]. }
+      destruct (IH b3 n dp c) as (b' & i' & Hs & L' & Hi' & Hh' & Ho' & E').
+      + lia.
+      + lia.
+      + unfold b3. rewrite len_upd. lia.
+      + intros j Hj. rewrite B3. destruct (Z.eqb_spec j i); [split; [discriminate|lia]|].
+        destruct (Z.eqb_spec j c); [split; [lia|auto]|]. split; intros; apply Hh; auto; lia.
+      + intros j Hj Nc. rewrite !V3. assert (Hq : 0 <= (j - 1) / 2 < j) by dlia.
+        destruct (Z.eqb_spec ((j - 1) / 2) c); [lia|].
+        destruct (Z.eqb_spec ((j - 1) / 2) i) as [Ei|Ni].
+        * (* j is c or its sibling *)
+          destruct (Z.eqb_spec j c); [lia|]. destruct (Z.eqb_spec j i); [lia|]. apply Hmin; auto.
+        * destruct (Z.eqb_spec j c) as [Ejc|Njc]; [exfalso; apply Ni; rewrite Ejc; exact Hcp|].
+          destruct (Z.eqb_spec j i) as [->|Nji].
+          { (* j = i: the parent of the old hole *)
+            pose proof (Hg ltac:(lia) c ltac:(lia) Hcp) as H1.
+            rewrite (V0 c) in H1 by lia. rewrite V0 in H1 by lia. lia. }
+          pose proof (Ho j Hj Ni) as H1. rewrite !V0 in H1 by lia. exact H1.
+      + intros _ j Hj Ec'. rewrite !V3. rewrite Hcp.
+        destruct (Z.eqb_spec i c); [lia|]. destruct (Z.eqb_spec i i); [|lia].
+        destruct (Z.eqb_spec j c); [dlia|]. destruct (Z.eqb_spec j i); [dlia|].
+        pose proof (Ho j Hj ltac:(lia)) as H1. rewrite Ec' in H1. rewrite !V0 in H1 by lia. lia.
+      + exists b', i'. split; [exact Hs|]. split; [unfold b3 in L'; rewrite len_upd in L'; lia|].
+        split; [auto|]. split; [auto|]. split; [auto|].
+        etransitivity; [exact E'|]. symmetry. etransitivity; [exact Ec|]. symmetry.
+        unfold b3. apply entries_put; [lia|rewrite Bc; bg].
+  Qed.
+
+  (** ** the root of a heap is minimal *)
+  Lemma root_min : forall n (b : cells), heap_ok n b -> forall j, 0 <= j < n -> prio_at b 0 <= prio_at b j.
+  Proof.
+    intros n b H.
+    assert (A : forall k : nat, forall j, 0 <= j < n -> j <= Z.of_nat k -> prio_at b 0 <= prio_at b j).
+    { induction k; intros j Hj Hk.
+      - assert (j = 0) by lia. subst. lia.
+      - destruct (Z.eq_dec j 0) as [->|N]; [lia|].
+        pose proof (H j ltac:(lia)). assert (0 <= (j - 1) / 2 < j) by dlia.
+        specialize (IHk ((j - 1) / 2) ltac:(lia) ltac:(lia)). lia. }
+    intros j Hj. apply (A (Z.to_nat j)); lia.
+  Qed.
+
+  Lemma entry_cell : forall n (b : cells) e, filled n b -> In e (entries b) ->
+    exists j, 0 <= j < n /\ bget b j = Some e.
+  Proof.
+    intros n b e F H. destruct (in_entries_bget b e H) as (j & Hj & G).
+    exists j. split; auto. destruct (Z.lt_ge_cases j n); [lia|].
+    rewrite (proj2 (F j ltac:(lia))) in G by lia. discriminate.
+  Qed.
+
+  Lemma root_is_min : forall m (b : cells) n p v, pq_inv m (b, n) -> bget b 0 = Some (p, v) ->
+    is_min (p, v) (entries b).
+  Proof.
+    intros m b n p v (Hl & Hn & Fl & Ho) G. split.
+    - eapply bget_in_entries; eauto.
+    - intros e' He'. destruct (entry_cell n b e' Fl He') as (j & Hj & Gj).
+      pose proof (root_min n b Ho j Hj) as R. unfold prio_at in R. rewrite G, Gj in R. exact R.
+  Qed.
+
+  Lemma size_is_length : forall m (s : pq), pq_inv m s -> Z.of_nat (List.length (contents s)) = snd s.
+  Proof. intros m [b n] (Hl & Hn & Fl & Ho). unfold contents; simpl. apply entries_length_filled; auto; lia. Qed.
+
+  (** ** pop *)
+  Lemma pop_spec : forall m (s : pq), pq_inv m s -> 0 < snd s ->
+    exists p v s', pq_pop s = Ok (p, v, s') /\ pq_inv m s' /\ snd s' = snd s - 1 /\
+      is_min (p, v) (contents s) /\ Permutation (contents s) ((p, v) :: contents s').
+  Proof.
+    intros m [b n] Inv Hpos. pose proof Inv as (Hl & Hn & Fl & Ho). simpl in Hpos.
+    unfold pq_pop. unfold ModelHeap.entry in *.
+    destruct (Z.leb_spec n 0); try lia.
+    destruct (bget b 0) as [[rp rv]|] eqn:G0.
+    2:{ exfalso. apply (proj1 (Fl 0 ltac:(lia))); auto; lia. }
+    pose proof (root_is_min m b n rp rv Inv G0) as Hmin.
+    rewrite (take_some_ok b 0 (rp, rv)); [|lia|auto]. cbn [bind].
+    set (b1 := upd b 0 None).
+    assert (B1 : forall j, bget b1 j = if j =? 0 then None else bget b j) by (intros; unfold b1; bg).
+    assert (E1 : Permutation (entries b) ((rp, rv) :: entries b1)) by (apply entries_take; [lia|auto]).
+    destruct (Z.eqb_spec (n - 1) 0) as [Hz|Hnz].
+    - exists rp, rv, (b1, n - 1). split; [reflexivity|]. split.
+      + unfold pq_inv. split; [unfold b1; rewrite len_upd; lia|]. split; [lia|]. split.
+        * intros j Hj. rewrite B1. destruct (Z.eqb_spec j 0); [split; [lia|auto]|].
+          split; [lia|]. intros. apply Fl; lia.
+        * intros j Hj. lia.
+      + split; [reflexivity|]. split; [exact Hmin|exact E1].
+    - set (ns := n - 1) in *.
+      destruct (bget b ns) as [[dp dv]|] eqn:Gd.
+      2:{ exfalso. apply (proj1 (Fl ns ltac:(lia))); auto; lia. }
+      rewrite (take_some_ok b1 ns (dp, dv)); [|unfold b1; rewrite len_upd; lia|rewrite B1; bg]. cbn [bind].
+      set (b2 := upd b1 ns None).
+      assert (L2 : len b2 = len b) by (unfold b2, b1; now rewrite !len_upd).
+      assert (B2 : forall j, bget b2 j = if j =? ns then None else if j =? 0 then None else bget b j).
+      { intros j. unfold b2. rewrite bget_upd by (unfold b1; rewrite len_upd; lia). now rewrite B1. }
+      assert (E2 : Permutation (entries b1) ((dp, dv) :: entries b2)).
+      { apply entries_take; [unfold b1; rewrite len_upd; lia|rewrite B1; bg]. }
+      assert (P2 : forall j, j <> 0 -> j <> ns -> vprio b2 0 dp j = prio_at b j).
+      { intros j H0 H1. unfold vprio, prio_at. rewrite B2. destruct (Z.eqb_spec j 0); [lia|].
+        destruct (Z.eqb_spec j ns); [lia|auto]. }
+      destruct (sift_down_spec (Z.to_nat ns) b2 ns dp 0) as (b' & i' & Hs & L' & Hi' & Hh' & Ho' & E').
+      + lia.
+      + lia.
+      + lia.
+      + intros j Hj. rewrite B2. destruct (Z.eqb_spec j ns); [split; [lia|auto]|].
+        destruct (Z.eqb_spec j 0); [split; [lia|auto]|]. split; [intros; apply Fl; lia|].
+        intros [Hge|]; [|lia]. apply Fl; lia.
+      + intros j Hj Np. assert (0 <= (j - 1) / 2 < j) by dlia. rewrite !P2 by lia. apply Ho. lia.
+      + intros; lia.
+      + rewrite Hs. cbn [bind].
+        assert (Gi' : bget b' i' = None) by (apply (proj2 (Hh' i' ltac:(lia))); auto).
+        rewrite (put_ok b' i' (dp, dv)); [|lia|auto]. cbn [bind].
+        set (b3 := upd b' i' (Some (dp, dv))).
+        assert (B3 : forall j, bget b3 j = if j =? i' then Some (dp, dv) else bget b' j) by (intros; unfold b3; bg).
+        assert (P3 : forall j, prio_at b3 j = vprio b' i' dp j).
+        { intros j. unfold vprio, prio_at. rewrite B3. destruct (Z.eqb_spec j i'); auto. }
+        exists rp, rv, (b3, ns). split; [reflexivity|]. split.
+        * unfold pq_inv. split; [unfold b3; rewrite len_upd; lia|]. split; [lia|]. split.
+          { intros j Hj. rewrite B3. destruct (Z.eqb_spec j i'); [split; [discriminate|lia]|].
+            split; intros; apply Hh'; auto. }
+          { intros j Hj. rewrite !P3. apply Ho'; auto. }
+        * split; [reflexivity|]. split; [exact Hmin|]. unfold contents; simpl fst.
+          etransitivity; [exact E1|]. constructor. etransitivity; [exact E2|]. symmetry.
+          etransitivity; [unfold b3; apply entries_put; [lia|auto]|]. constructor. exact E'.
+  Qed.
+
+  Lemma pop_empty : forall (s : pq), snd s <= 0 -> pq_pop s = Panic msg_pq_pop.
+  Proof. intros [b n] H. simpl in H. unfold pq_pop. destruct (Z.leb_spec n 0); auto; lia. Qed.
+
+  (** ** peek *)
+  Lemma peek_spec : forall m (s : pq), pq_inv m s -> 0 < snd s ->
+    exists p v, pq_peek s = Ok (p, v, s) /\ is_min (p, v) (contents s).
+  Proof.
+    intros m [b n] Inv Hpos. pose proof Inv as (Hl & Hn & Fl & Ho). simpl in Hpos.
+    unfold pq_peek. unfold ModelHeap.entry in *.
+    destruct (Z.leb_spec n 0); try lia.
+    destruct (bget b 0) as [[rp rv]|] eqn:G0.
+    2:{ exfalso. apply (proj1 (Fl 0 ltac:(lia))); auto; lia. }
+    rewrite a_get_ok by lia. cbn [bind]. rewrite G0. cbn [bind unwrap].
+    exists rp, rv. split; [reflexivity|]. eapply root_is_min; eauto.
+  Qed.
+
+  Lemma peek_empty : forall (s : pq), snd s <= 0 -> pq_peek s = Panic msg_pq_peek.
+  Proof. intros [b n] H. simpl in H. unfold pq_peek. destruct (Z.leb_spec n 0); auto; lia. Qed.
+
+  (** ** the iterator protocol *)
+  Lemma next_empty : forall m (s : pq), pq_inv m s -> snd s = 0 -> pq_next s = Ok None.
+  Proof.
+    intros m [b n] (Hl & Hn & Fl & Ho) H. simpl in H. subst n. unfold pq_next. simpl.
+    rewrite all_nothing_ok; auto. intros j Hj. apply Fl; lia.
+  Qed.
+
+  Lemma empty_inv : forall m, 0 <= m -> pq_inv m (@empty_pq T m) /\ contents (@empty_pq T m) = [].
+  Proof.
+    intros m Hm. unfold empty_pq, pq_inv, contents. simpl fst. split.
+    - split; [unfold len; rewrite repeat_length; lia|]. split; [lia|]. split.
+      + intros j Hj. rewrite bget_repeat_none. split; [lia|auto].
+      + intros j Hj. lia.
+    - apply entries_all_nothing. intros. apply bget_repeat_none.
+  Qed.
+
+  (** ** scripts: every step is allowed by the multiset specification *)
+  Lemma step_refines : forall m (s : pq) o, pq_inv m s ->
+    match pq_step m s o with
+    | (ob, Some s') => pq_spec_step m (contents s) o ob (Some (contents s')) /\ pq_inv m s'
+    | (ob, None) => pq_spec_step m (contents s) o ob None
+    end.
+  Proof.
+    intros m s o Inv. pose proof (size_is_length m s Inv) as Hlen.
+    assert (Hsz : 0 <= snd s) by (destruct s; destruct Inv as (_ & ? & _); simpl; lia).
+    destruct o; simpl.
+    - destruct (Z.lt_ge_cases (snd s) m) as [Hlt|Hge].
+      + destruct (push_spec m s v p Inv Hlt) as (s' & -> & Inv' & _ & E). simpl. split; auto.
+        constructor; [lia|exact E].
+      + rewrite push_full by lia. simpl. constructor. lia.
+    - destruct (Z.lt_ge_cases 0 (snd s)) as [Hpos|Hz].
+      + destruct (pop_spec m s Inv Hpos) as (p & v & s' & -> & Inv' & _ & Hm & E). simpl. split; auto.
+        now constructor.
+      + rewrite pop_empty by lia. simpl. constructor.
+        destruct (contents s); auto. simpl in Hlen. lia.
+    - destruct (Z.lt_ge_cases 0 (snd s)) as [Hpos|Hz].
+      + destruct (peek_spec m s Inv Hpos) as (p & v & -> & Hm). simpl. split; auto.
+        now constructor.
+      + rewrite peek_empty by lia. simpl. constructor.
+        destruct (contents s); auto. simpl in Hlen. lia.
+    - split; auto. unfold pq_len. rewrite <- Hlen. now constructor.
+    - unfold pq_next, pq_len. destruct (Z.eqb_spec (snd s) 0) as [Hz|Hnz].
+      + pose proof (next_empty m s Inv Hz) as N. unfold pq_next, pq_len in N.
+        destruct (Z.eqb_spec (snd s) 0); [|lia]. rewrite N. simpl. constructor.
+        destruct (contents s); auto. simpl in Hlen. lia.
+      + destruct (pop_spec m s Inv ltac:(lia)) as (p & v & s' & -> & Inv' & _ & Hm & E). simpl. split; auto.
+        now constructor.
+  Qed.
+
+  Lemma run_refines : forall m ops (s : pq), pq_inv m s ->
+    pq_spec_run m (contents s) ops (fst (pq_run m ops s)) /\
+    match snd (pq_run m ops s) with Some s' => pq_inv m s' | None => True end.
+  Proof.
+    induction ops as [|o ops IH]; intros s Inv; simpl.
+    - split; [constructor|auto].
+    - pose proof (step_refines m s o Inv) as H.
+      destruct (pq_step m s o) as [ob [s'|]].
+      + destruct H as [H Inv']. specialize (IH s' Inv').
+        destruct (pq_run m ops s') as [obs fin]. simpl in *. destruct IH as [IH1 IH2].
+        split; auto. econstructor; eauto.
+      + simpl. split; auto. now constructor.
+  Qed.
 End PQProofs.
